@@ -346,14 +346,19 @@ def _judge(ctx, tag, run, fn, role, reserved_rejected, aio=False):
     if role == "server":
         if aio:
             resp = [w for w in run.writes if isinstance(w[0], tuple) and w[0][0] == "response"]
-            okr = False
-            for (kind, lexp_a, ser_a), m in resp:
-                pass
+            # a reply written in place (no helper): the four octets [0x7F, octet 2, 0, 0], octet 2 read as (high nibble, low nibble)
+            direct_ok = True
+            for v_, m_ in run.writes:
+                if isinstance(v_, list) and len(v_) == 4:
+                    o_ = [run.vec.arr(x_) for x_ in v_]
+                    direct_ok = direct_ok and bool((o_[0][m_] == 0x7F).all()) and bool((o_[2][m_] == 0).all()) and bool((o_[3][m_] == 0).all())
+                    resp.append((("response", o_[1] >> 4, o_[1] & 15), m_))
             good = [w for w in resp if (w[1] & valid).any()]
             err = [w for w in resp if (w[1] & ~valid).any()]
-            okr = len(good) == 1 and bool((good[0][0][1][valid] == 15).all()) and bool((good[0][0][2][valid] == ser[valid]).all())
+            okr = direct_ok and len(good) == 1 and bool((good[0][0][1][valid & good[0][1]] == 15).all()) and bool((good[0][0][2][valid & good[0][1]] == ser[valid & good[0][1]]).all()) \
+                and bool((valid <= good[0][1]).all())
             ctx.ob(f"{tag}: reply announces exponent 15 (2^24) and echoes the chosen serializer", okr, "reply octet 2 changed", fn.loc())
-            oke = all(bool((w[0][1][w[1]] == 1).all()) and bool((w[0][2][w[1]] == 0).all()) for w in err) and len(err) >= 1
+            oke = all(bool((w[0][1][w[1] & ~valid] == 1).all()) and bool((w[0][2][w[1] & ~valid] == 0).all()) for w in err) and len(err) >= 1
             ctx.ob(f"{tag}: unsupported serializer answered with error code 1 / serializer 0", oke, "error reply changed", fn.loc())
         else:
             ws = [w for w in run.writes if (w[1] & valid).any()]
@@ -705,7 +710,8 @@ def _rule_limits_receive(ctx, an):
                 from .c07_cells import _method_env as _menv
                 _menv(ctx, pp.cls, pp, env)
                 for k_ in ("self.stringReceived", "self.ping", "self.pong", "self.protocol_error"):
-                    env.pop(k_, None)   # observed through the oracle
+                    # observed: as a bound method value (also when picked out of a table and called) and through the oracle
+                    env[k_] = Sym(f"method {k_[5:]}", methods={"__call__": (lambda *a_, _k=k_[5:]: seen.append((_k, _tp(a_[0]) if a_ else None)))})
                 from .common import inline_private as _ip
                 tn = Tiny(env, default_call=orc, model_strings=True, model_types=True, opaque_globals=True,
                           inline_self=_ip(ctx, pp.cls, exclude=("_on_handshake_complete",)))
@@ -753,7 +759,8 @@ def _rule_limits_receive(ctx, an):
                 env.update(consts)
                 _menv(ctx, pp.cls, pp, env)
                 for k_ in ("self.stringReceived", "self.ping", "self.pong", "self.protocol_error"):
-                    env.pop(k_, None)
+                    # observed: as a bound method value (also when picked out of a table and called) and through the oracle
+                    env[k_] = Sym(f"method {k_[5:]}", methods={"__call__": (lambda *a_, _k=k_[5:]: seen.append((_k, _tp(a_[0]) if a_ else None)))})
                 tn = Tiny(env, default_call=orc2, model_strings=True, model_types=True, opaque_globals=True, inline_self=_ip(ctx, pp.cls, exclude=("_on_handshake_complete",)))
                 tn.env[pp.params()[1]] = _fp(wire)
                 r = tn.run(body)
